@@ -142,9 +142,9 @@ theorem sc_roundtrip {V : Type} (r : Rec V) :
 theorem abs3Hd_toV3Hd {V : Type} (h : Hd V) : abs3Hd (toV3Hd h) = abs2Hd h := by
   simp [abs3Hd, toV3Hd, abs2Hd, sc_toV3]
 
-theorem abs2Hd_roundtrip {V : Type} (h : Hd V) (hd : h.disc = none) :
+theorem abs2Hd_roundtrip {V : Type} (h : Hd V) :
     abs2Hd (fromV3Hd (toV3Hd h)) = abs2Hd h := by
-  simp [abs2Hd, fromV3Hd, toV3Hd, sc_roundtrip, fileToBinary_idem, hd]
+  simp [abs2Hd, fromV3Hd, toV3Hd, sc_roundtrip, fileToBinary_idem]
 
 end KinModel.Conv
 
